@@ -172,4 +172,6 @@ pub fn type_lines(out: &mut Vec<String>) {
     out.push(type_line!("t:np", NestPacked));
     out.push(type_line!("t:na2", NestAlign2));
     out.push(type_line!("t:ne", NestEnum));
+    out.push(type_line!("t:u16x2", [u16; 2]));
+    out.push(type_line!("t:tup16", (u16,)));
 }
